@@ -346,9 +346,86 @@ pub fn shuffle_position(rng: &mut Rng) -> [u8; 64] {
     }
 }
 
+/// a small box of squares with a few pieces of both sides in it (all of them mobile inside the
+/// box, rabbits included) and one far-away rabbit per side: random play confined to the box
+/// revisits positions constantly, in every way the rules allow (steps, pushes, pulls, rabbits
+/// advanced and pushed back, captures when the box contains a trap)
+pub fn confined_position(rng: &mut Rng) -> ([u8; 64], Vec<usize>) {
+    loop {
+        let (h, w) = [(2usize, 3usize), (3, 2), (2, 2), (2, 2), (1, 3), (3, 1), (1, 4), (4, 1), (1, 2), (2, 1), (3, 3)][rng.below(11)];
+        let r0 = rng.below(9 - h);
+        let f0 = rng.below(9 - w);
+        let mut region = Vec::new();
+        for r in r0..r0 + h {
+            for f in f0..f0 + w {
+                region.push(r * 8 + f);
+            }
+        }
+        let mut c = [0u8; 64];
+        let npieces = (2 + rng.below(3)).min(region.len() - 1).max(2);
+        let mut counts = [0usize; 13];
+        let mut placed = 0;
+        let mut tries = 0;
+        while placed < npieces && tries < 100 {
+            tries += 1;
+            let i = region[rng.below(region.len())];
+            if c[i] != 0 {
+                continue;
+            }
+            let o = if placed == 0 { 0 } else if placed == 1 { 1 } else { rng.below(2) as u8 };
+            let t = [1u8, 1, 2, 3, 4, 5, 6, 2, 3][rng.below(9)];
+            let v = t + 6 * o;
+            if counts[v as usize] >= COMPLEMENT[t as usize] {
+                continue;
+            }
+            if (v == 1 && i < 8) || (v == 7 && i >= 56) {
+                continue;
+            }
+            c[i] = v;
+            counts[v as usize] += 1;
+            placed += 1;
+        }
+        // far-away rabbits so that no side has lost all rabbits
+        for (v, lo, hi) in [(1u8, 32usize, 56usize), (7u8, 8usize, 32usize)] {
+            if counts[v as usize] == 0 {
+                for _ in 0..40 {
+                    let i = lo + rng.below(hi - lo);
+                    let near = region.iter().any(|&q| (q / 8).abs_diff(i / 8) + (q % 8).abs_diff(i % 8) <= 2);
+                    if c[i] == 0 && !near && !TRAPS.contains(&i) {
+                        c[i] = v;
+                        break;
+                    }
+                }
+            }
+        }
+        for &t in TRAPS.iter() {
+            if c[t] != 0 && !has_friend(&c, t) {
+                c[t] = 0;
+            }
+        }
+        if legal_position(&c) && c.contains(&1) && c.contains(&7) {
+            return (c, region);
+        }
+    }
+}
+
 /// parse a position given as cells through the engine's own parser
 pub fn state_from_cells(c: &[u8; 64], gold: bool, mn: usize) -> Result<GameState, String> {
-    let txt = diagram_of_cells(c, gold, mn);
+    state_from_cells_styled(c, gold, mn, 0)
+}
+
+/// style 0: header "<n>g" / "<n>s"; 1: the alternative side letters "<n>w" / "<n>b";
+/// 2: no header at all (only meaningful for Gold to move at move 2, the parser's default)
+pub fn state_from_cells_styled(c: &[u8; 64], gold: bool, mn: usize, style: u8) -> Result<GameState, String> {
+    let mut txt = diagram_of_cells(c, gold, mn);
+    if style == 1 {
+        let head_end = txt.find('\n').unwrap();
+        let head = txt[..head_end].replace('g', "w").replace('s', "b");
+        txt = format!("{}{}", head, &txt[head_end..]);
+    } else if style == 2 && gold && mn == 2 {
+        let head_end = txt.find('\n').unwrap();
+        txt = txt[head_end..].to_string();
+    }
     stage("from_str");
     let r = guarded(|| txt.parse::<GameState>());
     stage("");
